@@ -144,6 +144,22 @@ def junk_corpus(w):
                         failures.append({"detail": "after an element truncated at %d characters, %d of the %d following valid messages were delivered (threshold %d)"
                                          % (cut, len(tail), len(want), th),
                                          "witness": {"replay_kind": "buffer.stream", "pieces": pieces, "threshold": th, "expect_tail": pings[:n_p]}, "reproduced": True})
+    # the same recovery with the threshold DISABLED (the mode of BLOB connections): nothing ever abandons a corrupt front element
+    for front in ('<getProperties version="1.7" dev', '<setNumberVector device="D"><oneNumber name="x">1</oneNumber></setNumberVector>'):
+        stream = front + "".join(pings[:30])
+        b = Buffer()
+        b.max_buffer_size_before_frontal_cleanup = None
+        got = []
+        cases += 1
+        b.append(stream)
+        b.process(got.append)
+        want = [IndiMessage.from_string(x) for x in pings[:30]]
+        if [x for x in got if x in want] != want:
+            failures.append({"detail": "threshold disabled: after the corrupt element %r none of the %d following valid messages is delivered (%d characters retained)"
+                             % (front[:40], len(want), b.data_len),
+                             "witness": {"replay_kind": "buffer.stream", "class": "disabled-threshold-recovery", "pieces": [stream], "threshold": None, "expect_tail": pings[:30]},
+                             "reproduced": True})
+            break
     return {"cases": cases, "failures": failures}
 
 
